@@ -527,6 +527,10 @@ func c07(c *an.Ctx) {
 		}
 	})
 
+	c.Check("R-PAIR", "binlog rows are decoded column by column through the recorded source positions, and only when the column count is exactly the expected one (anything else is a decode error, which invalidates the table)", 4, func(o *an.O) {
+		ruleParseBinlogRow(c, o)
+	})
+
 	c.Check("R-SHAPE", "Tester.Test compares every filter column (false on first mismatch, true only after the loop)", 2, func(o *an.O) {
 		tt := c.NeedFunc(sg, "(*tester).Test")
 		calls := an.Calls(tt, an.Mod(sg, "", "driverValuesEqual"))
